@@ -576,7 +576,10 @@ def _table_jobs(tier, seed):
     for name, keys in SMALL_COLUMNS:
         tb = Table('S', 1, 1, keys, width=4, tag='p')
         fs = []
-        for vi, v in enumerate(lookups_for(keys)):
+        looks = lookups_for(keys)
+        if tier == 'quick' and len(looks) > 10:
+            looks = looks[:6] + looks[-4:]
+        for vi, v in enumerate(looks):
             full = vi < 2 or tier == 'thorough'
             fs += lookup_formulas(tb, v, lit(v), 'base', rich=full or vi % 3 == 0, alljs=full)
         jobs.append(job_from(f'base/{name}', {'S': [tb]}, _place(fs, 'S', 8, 1, f'keys {short(keys)}')))
@@ -686,7 +689,7 @@ def _table_jobs(tier, seed):
         v2 = 25 if kind(v) == 'num' else 'zzz'
         cands += lookup_formulas(tb, v2, lit(v2), 'entry_point', rich=False)
         for i, (f, exp, key, size) in enumerate(cands):
-            if tier == 'quick' and i % 2:
+            if tier == 'quick' and i % 3:
                 continue
             # the entry cell refers to the lookup through one more cell (dependency chain)
             placed = [('S', 9, 5, f, None, None, size, ''),
